@@ -53,13 +53,14 @@ def _leaf(v, path):
 
 
 class MList(SList):
-    __slots__ = ('shape', 'arrs')
+    __slots__ = ('shape', 'arrs', 'hist')
 
     def __init__(self, interp, uid, shape, length=None, fresh=True):
         SList.__init__(self, length if length is not None else z3.IntVal(0), None, uid)
         self.shape = shape
         self.arrs = {}
         self.immutable = False
+        self.hist = None      # how the list was built, for measures over it (strings.join_term)
         self.elem = self._elem
         if shape is not None:
             self._fresh_arrays(interp, uid)
@@ -91,6 +92,7 @@ class MList(SList):
     # ---- mutation -------------------------------------------------------------
     def havoc(self, interp, tag):
         self.cache = {}
+        self.hist = None
         n = interp.st.fresh_int('%s.len@%s' % (self.uid, tag))
         interp.st.assume(n >= 0)
         self.length = n
@@ -103,6 +105,8 @@ class MList(SList):
             v = interp.resolve(v)
         self._ensure_shape(interp, v)
         self.cache = {}
+        if self.shape == ('str',):
+            self.hist = ('append', self.arrs[()], self.length, v, self.hist)
         for path, kind in _paths(self.shape):
             self.arrs[path] = z3.Store(self.arrs[path], self.length, to_z3(_leaf(v, path)))
         self.length = z3.simplify(self.length + 1)
@@ -110,6 +114,7 @@ class MList(SList):
     def insert(self, interp, pos, v):
         if not (isinstance(pos, int) and pos == 0):
             raise Unsupported('insert at a position other than 0 in a symbolic list')
+        self.hist = None
         self._ensure_shape(interp, v)
         self.cache = {}
         k = z3.Int('k!shift')
@@ -125,6 +130,8 @@ class MList(SList):
             raise PyRaise(IndexError('pop from empty list'))
         if isinstance(pos, int) and pos == -1:
             v = self._elem(interp, z3.simplify(self.length - 1))
+            if self.shape == ('str',):
+                self.hist = ('poplast', self.arrs[()], self.length, self.hist)
             self.length = z3.simplify(self.length - 1)
             self.cache = {}
             return v
@@ -135,6 +142,7 @@ class MList(SList):
         raise Unsupported('pop at a symbolic position')
 
     def delete_first(self, interp):
+        self.hist = None
         k = z3.Int('k!shift')
         self.cache = {}
         for path, kind in _paths(self.shape):
@@ -148,6 +156,7 @@ class MList(SList):
                 self.append(interp, x)
             return
         if isinstance(other, SList):
+            self.hist = None
             if other.length is self.length and other is self:
                 raise Unsupported('extend with itself')
             if self.shape is None:
@@ -179,6 +188,7 @@ class MList(SList):
                 raise PyRaise(IndexError('list assignment index out of range'))
         self._ensure_shape(interp, v)
         self.cache = {}
+        self.hist = None
         for path, kind in _paths(self.shape):
             self.arrs[path] = z3.Store(self.arrs[path], t, to_z3(_leaf(v, path)))
 
@@ -186,6 +196,7 @@ class MList(SList):
         c = MList(interp, interp.st.fresh_name(self.uid + '.copy'), None, self.length)
         c.shape = self.shape
         c.arrs = dict(self.arrs)
+        c.hist = self.hist
         return c
 
 
@@ -203,6 +214,7 @@ def method(interp, xs, name, args, kwargs):
     if name == 'clear':
         xs.length = z3.IntVal(0)
         xs.cache = {}
+        xs.hist = None
         return None
     return None
 
